@@ -272,6 +272,18 @@ class Interp:
             b2 = self.ad.decode(data)
             if any(x is y for x in self.ad.items(b) for y in self.ad.items(b2)):
                 self.ctx.fail(f"{self.t}/decode-shares-items", f"{self.t}: two decodes of the same bytes share item objects")
+            # what a block hands out on lookup is one of ITS items - also when another block holds an equal one that was looked up first
+            if self.t in ("events", "emg", "data3D", "force3D"):
+                for blk_ in (b, b2):
+                    own = {id(x) for x in self.ad.items(blk_)}
+                    for x in self.ad.items(blk_):
+                        try:
+                            got = blk_[x.label]
+                        except Exception:  # noqa - C18's subject
+                            continue
+                        if id(got) not in own:
+                            self.ctx.fail(f"{self.t}/lookup-returns-item-of-another-instance", f"{self.t}: lookup of label {x.label!r} on one decoded block returned an item "
+                                                                                              f"object that belongs to another block (an equal twin)")
             self.pool.append(b2)
         if self.mutated:
             self.stats["created-after-mutation"] += 1
@@ -593,7 +605,7 @@ def deep_strategy(tier):
     import hypothesis.strategies as st_
 
     made = st_.fixed_dictionaries({"t": st_.sampled_from(ALL_TYPES), "origin": st_.sampled_from(["constructed", "constructed-empty", "decoded", "decoded-same-stream",
-                                                                                                 "decoded-same-stream", "decoded-roomy", "escaped-arrays"]), "seed": st_.integers(1, 50)})
+                                                                                                 "decoded-same-stream", "decoded-roomy", "escaped-arrays", "dead-instances"]), "seed": st_.integers(1, 50)})
     bare = st_.fixed_dictionaries({"t": st_.sampled_from(ALL_TYPES + ["event-item"]), "origin": st_.just("bare-constructor"), "seed": st_.integers(1, 50),
                                    "when": st_.sampled_from(["sibling-before", "sibling-after", "both"])})
     return st_.one_of(made, made, bare)
@@ -630,6 +642,36 @@ def run_deep(ctx, case):
         return b if origin == "constructed" else specs.lib_decode(t, fmt, specs.lib_write(b))[0]
 
     pristine_empty = specs.lib_write(_minimal_block(t))
+    if origin == "dead-instances":
+        # instances with content are made and DROPPED, one after the other, and each time a bare instance is constructed right afterwards
+        # (CPython hands the freed address out again): whatever the library keeps about an object must die with it
+        pristine = deep_snapshot(_bare(t))
+        pristine_enc = None
+        try:
+            pristine_enc = specs.lib_write(_bare(t))
+        except Exception:  # noqa - a bare 2D block cannot be written: the snapshot decides
+            pass
+        reused = 0
+        for k in range(25):
+            victim = _roomy_block(t, case["seed"] + k) if k % 2 else specs.lib_decode(t, fmt if t not in ("data3D", "calib") else (1 if t == "data3D" else 2),
+                                                                                      specs.lib_write(_roomy_block(t, case["seed"] + k)))[0]
+            addr = id(victim)
+            del victim
+            fresh = _bare(t)
+            reused += id(fresh) == addr
+            shot = deep_snapshot(fresh)
+            enc = None
+            if pristine_enc is not None:
+                try:
+                    enc = specs.lib_write(fresh)
+                except Exception as e:  # noqa
+                    enc = f"{type(e).__name__}"
+            if shot != pristine or enc != pristine_enc:
+                ctx.fail(f"deep/{t}/new-instance-inherits-from-a-dead-one", f"{t}: an instance constructed right after another one (with content) was dropped does not look / encode "
+                                                                            f"like a pristine one (round {k}, same address: {id(fresh) == addr})")
+            del fresh
+        ctx.case(case, reused > 0, labels=[f"deep:{t}", origin, "address-reused" if reused else "address-never-reused"])
+        return
     if origin == "escaped-arrays":
         # arrays taken out of a decoded block that is then dropped (x = tdf.emg[label].data): they are the caller's now. Used in ONE new,
         # constructor-made block, they must not be refilled by whatever is decoded next.
